@@ -468,6 +468,23 @@ def _corpus():
            ('return', num(-1))]),
          ('print', ('call', 'deep', [num(1)])), ('print', ('call', 'deep', [num(5)])),
          ('print', ('call', 'deep', [num(100)])), ('print', num(98))],
+        # empty blocks: an `if` whose else block (or then block, or both) is `begin end`, taken on
+        # its false and on its true path — at top level, inside another if/else, as the last
+        # statement of a routine, at the end of a loop body, and as the last statement of the script
+        [('assign', 'x', num(1)), ('assign', 'y', num(0)),
+         ('if', ('expr', ('bin', '>', ('var', 'y'), num(0))), [('print', num(1))], []),
+         ('print', num(2)),
+         ('if', cond, [], [('print', num(3))]), ('print', num(4)),
+         ('if', cond, [('if', ('expr', ('bin', '>', ('var', 'y'), num(0))), [('print', num(5))], []),
+                       ('print', num(6))], [('print', num(99))]),
+         ('if', ('expr', ('bin', '>', ('var', 'y'), num(0))), [], []), ('print', num(7)),
+         ('define', 'last', ['p'], [('print', ('var', 'p')),
+                                    ('if', ('expr', ('bin', '>', ('var', 'p'), num(0))), [('print', num(8))], [])]),
+         ('call', 'last', [num(0)], False), ('print', num(9)), ('call', 'last', [num(1)], False),
+         ('repeat', ('count', num(3)),
+          [('print', num(10)), ('if', ('expr', ('bin', '>', ('var', 'y'), num(0))), [('print', num(11))], [])]),
+         ('repeat', ('count', num(2)), []), ('print', num(12)),
+         ('if', ('expr', ('bin', '>', ('var', 'y'), num(0))), [('print', num(13))], [])],
     ]
 
 
